@@ -1,4 +1,5 @@
 """C05 — one red element per tree position under any thread interleaving."""
+import re
 from .runner import Property
 from .core import Rng
 from . import concref as CR
@@ -89,8 +90,16 @@ class C05(ConcBase):
         return self.gen(tier, seed, NAV_PROGS, 5)
 
     def project(self, line):
+        # C05 is about what the threads obtain: handles (position, kind, range, identity).  Identities are renumbered by first
+        # appearance in the results, so that WHICH thread's candidate won a race -- which depends on how the schedule lines up
+        # with the blocking points of the code -- does not matter, while two identities for one position still do.
         p = line.split(" || ")
-        return p[1] if len(p) == 3 else line
+        if len(p) != 3:
+            return line
+        seen = {}
+        def ren(m):
+            return "#%d" % seen.setdefault(m.group(1), len(seen))
+        return re.sub(r"#(\d+|\?)", ren, p[1])
 
     def spec(self, case, impl):
         return None
